@@ -76,6 +76,8 @@ fn main() {
         "C06" => c06::run(seed, std::env::args().nth(3).as_deref() == Some("thorough")),
         #[cfg(feature = "c07")]
         "C07" => c07::run(seed, std::env::args().nth(3).as_deref() == Some("thorough")),
+        #[cfg(feature = "c07")]
+        "C04B" => c07::run_builder_for_c04(seed, std::env::args().nth(3).as_deref() == Some("thorough")),
         #[cfg(feature = "c08")]
         "C08" => c08::run(seed),
         #[cfg(feature = "c08q")]
